@@ -111,7 +111,7 @@ func genOverlap(c *fw.Ctx, g *gen, proto string) *ovlCase {
 	// request bodies of the same size
 	var same []string
 	for j := 0; j < k; j++ {
-		o := genObject(c, g, proto, fmt.Sprintf("%sovl-%d%s", w.MGColl, j, ext))
+		o := genObject(c, g, proto, under(w.MGColl, fmt.Sprintf("ovl-%d%s", j, ext)))
 		if o.ETag == "" {
 			o.ETag = fmt.Sprintf("tag-of-%d", j)
 		}
